@@ -16,11 +16,11 @@ def PinFacts (c : Circuit) (ig : List Name) (c3 : Circuit) (ord : Ord) (g : Name
 structure Setup (c : Circuit) (bb : BBox) (d q : Name) (ig : List Name) (ru : Bool) (pfx : String) (ord : Ord) (n : Nat)
     (cs0 : Circuit) (r : Tx.UState) : Prop where
   S : StripView c ig cs0
-  C : Ctx (prune cs0 bb (insts c) d q ru) (sio c d q) (ord (prune cs0 bb (insts c) d q ru).io)
-  I : Inv (prune cs0 bb (insts c) d q ru) (sio c d q) pfx (ord (prune cs0 bb (insts c) d q ru).io) n r
+  C : Ctx (prune cs0 bb (insts c) d q ig ru) (sio c d q) (ord (prune cs0 bb (insts c) d q ig ru).io)
+  I : Inv (prune cs0 bb (insts c) d q ig ru) (sio c d q) pfx (ord (prune cs0 bb (insts c) d q ig ru).io) n r
   npos : 0 < n
-  dName : PinFacts c ig (prune cs0 bb (insts c) d q ru) ord d
-  qName : PinFacts c ig (prune cs0 bb (insts c) d q ru) ord q
+  dName : PinFacts c ig (prune cs0 bb (insts c) d q ig ru) ord d
+  qName : PinFacts c ig (prune cs0 bb (insts c) d q ig ru) ord q
 
 theorem mem_sio {c : Circuit} {d q : Name} {u : Name × BBox} (hu : u ∈ c.bbs) :
     (u.1 ++ "_" ++ d, u.1 ++ "_" ++ q) ∈ sio c d q := by
@@ -40,33 +40,33 @@ theorem has_of_mem_io {c : Circuit} {x : Name} (h : x ∈ c.io) : c.has x = true
   · exact mem_outputs_has h
 
 theorem setup {c : Circuit} {bb : BBox} {d q : Name} {ig : List Name} {ru : Bool} {pfx : String} {ord : Ord} {n : Nat}
-    {cs0 : Circuit} {r : Tx.UState} (hord : OrdOK ord) (G : SeqGood' c bb d q) (hig : d ∉ ig ∧ q ∉ ig)
+    {cs0 : Circuit} {r : Tx.UState} (hord : OrdOK ord) (G : SeqGood' c bb d q) (K : NoClash c bb ig) (hig : d ∉ ig ∧ q ∉ ig)
     (hs : Tx.stripBlackboxes c ig ord = .ok cs0)
-    (hr : Tx.unroll (prune cs0 bb (insts c) d q ru) n (sio c d q) pfx ord = .ok r) :
+    (hr : Tx.unroll (prune cs0 bb (insts c) d q ig ru) n (sio c d q) pfx ord = .ok r) :
     Setup c bb d q ig ru pfx ord n cs0 r := by
   have S := (strip_ok hord G.clean.toWF hs).2
   obtain ⟨hn, hmem, hloop⟩ := unroll_unfold hr
   have wf0 := strip_wf G.clean.toWF S
-  have wf3 : WF (prune cs0 bb (insts c) d q ru) := by
+  have wf3 : WF (prune cs0 bb (insts c) d q ig ru) := by
     rw [prune_eq]
     exact remove_wf (remove_wf wf0 _) _
   -- a data pin of an instance, given that its exposed name is io of the pruned circuit
   have pin : ∀ g, g ∈ bb.ins ++ bb.outs → g ∉ ig →
-      (∀ u ∈ c.bbs, (u.1 ++ "_" ++ g) ∈ ord (prune cs0 bb (insts c) d q ru).io) →
-      PinFacts c ig (prune cs0 bb (insts c) d q ru) ord g := by
+      (∀ u ∈ c.bbs, (u.1 ++ "_" ++ g) ∈ ord (prune cs0 bb (insts c) d q ig ru).io) →
+      PinFacts c ig (prune cs0 bb (insts c) d q ig ru) ord g := by
     intro g hg hgi hio u hu
-    have h3 : (prune cs0 bb (insts c) d q ru).has (u.1 ++ "_" ++ g) = true :=
+    have h3 : (prune cs0 bb (insts c) d q ig ru).has (u.1 ++ "_" ++ g) = true :=
       has_of_mem_io ((hord _).mem_iff.1 (hio u hu))
     rw [prune_eq, remove2_has] at h3
-    obtain ⟨hk, hsn⟩ := key_name G S hu hg hgi h3.1
+    obtain ⟨hk, hsn⟩ := key_name G K S hu hg hgi h3.1
     exact ⟨has_of_isPin (kept_isPin hk), kept_not_dropped hk, hsn, hio u hu⟩
   have dN := pin d (List.mem_append.2 (Or.inl G.dIn)) hig.1 (fun u hu => (hmem _ (mem_sio hu)).1)
   have qN := pin q (List.mem_append.2 (Or.inr G.qOut)) hig.2 (fun u hu => (hmem _ (mem_sio hu)).2)
-  have valsIn : ∀ p ∈ sio c d q, p.2 ∈ (prune cs0 bb (insts c) d q ru).inputs := by
+  have valsIn : ∀ p ∈ sio c d q, p.2 ∈ (prune cs0 bb (insts c) d q ig ru).inputs := by
     intro p hp
     obtain ⟨u, hu, rfl⟩ := mem_sio_inv hp
     obtain ⟨hhas, hd, hsn, hio⟩ := qN u hu
-    have h3 : (prune cs0 bb (insts c) d q ru).has (u.1 ++ "_" ++ q) = true :=
+    have h3 : (prune cs0 bb (insts c) d q ig ru).has (u.1 ++ "_" ++ q) = true :=
       has_of_mem_io ((hord _).mem_iff.1 hio)
     rw [prune_eq, remove2_has] at h3
     have hty := (G.pinsPresent u hu).2 q G.qOut
@@ -96,13 +96,13 @@ variable {c : Circuit} {bb : BBox} {d q : Name} {ig : List Name} {ru : Bool} {pf
 
 /-- the io map names the per-step io nodes -/
 theorem Setup.ioName (T : Setup c bb d q ig ru pfx ord n cs0 r) {x : Name}
-    (hx : x ∈ ord (prune cs0 bb (insts c) d q ru).io) {t : Nat} (ht : t < n) :
-    Tx.ioName r.2 x t = N (prune cs0 bb (insts c) d q ru) pfx x t := by
+    (hx : x ∈ ord (prune cs0 bb (insts c) d q ig ru).io) {t : Nat} (ht : t < n) :
+    Tx.ioName r.2 x t = N (prune cs0 bb (insts c) d q ig ru) pfx x t := by
   rw [T.I.map, ioName_mapAt _ _ _ _ hx ht]
 
 /-- the step-0 state inputs are free inputs of the unrolled circuit -/
 theorem Setup.q0_input (T : Setup c bb d q ig ru pfx ord n cs0 r) {u : Name × BBox} (hu : u ∈ c.bbs) :
-    r.1.ty? (N (prune cs0 bb (insts c) d q ru) pfx (u.1 ++ "_" ++ q) 0) = some "input" := by
+    r.1.ty? (N (prune cs0 bb (insts c) d q ig ru) pfx (u.1 ++ "_" ++ q) 0) = some "input" := by
   have hm := T.I.memN (t := 0) T.npos (T.qName u hu).2.2.2
   unfold Circuit.ty?
   rw [attr?_of_mem T.I.wf.nodup hm]
